@@ -645,3 +645,259 @@ func (n *Node) Walk(path string, f func(path string, n *Node)) {
 		}
 	}
 }
+
+// ---------------------------------------------------------------------------
+// YAML merges (<<) in Author renderings
+
+// AddMerges rewrites some step mappings of a rendered document so that part of their content comes from
+// anchored templates through `<<` merges: single merges, two-level chains (a template that itself merges a
+// base and overrides one of its keys, with the override written before or after its own `<<`), templates
+// carrying a key the step overrides explicitly, and the `<<` key at a tape-chosen position. By the YAML merge
+// rules (explicit keys beat merged keys, wherever they stand) the document keeps its content, apart from a new
+// first top-level key "x-templates" that holds the templates. Only step-level mappings are rewritten: their
+// keys are not order-significant. Returns the number of merges introduced.
+func AddMerges(t *tape.Tape, root *yaml.Node) int {
+	if root == nil || root.Kind != yaml.MappingNode {
+		return 0
+	}
+	var steps []*yaml.Node
+	var collect func(seq *yaml.Node)
+	collect = func(seq *yaml.Node) {
+		if seq == nil || seq.Kind != yaml.SequenceNode {
+			return
+		}
+		for _, s := range seq.Content {
+			if s.Kind != yaml.MappingNode || s.Anchor != "" {
+				continue
+			}
+			steps = append(steps, s)
+			for i := 0; i+1 < len(s.Content); i += 2 {
+				if s.Content[i].Value == "steps" {
+					collect(s.Content[i+1])
+				}
+			}
+		}
+	}
+	for i := 0; i+1 < len(root.Content); i += 2 {
+		if root.Content[i].Value == "steps" {
+			collect(root.Content[i+1])
+		}
+	}
+	tpls := &yaml.Node{Kind: yaml.SequenceNode, Tag: "!!seq"}
+	n := 0
+	junk := func() *yaml.Node { return &yaml.Node{Kind: yaml.ScalarNode, Tag: "!!str", Value: "overridden-template-value"} }
+	merge := func(target *yaml.Node) []*yaml.Node {
+		return []*yaml.Node{{Kind: yaml.ScalarNode, Tag: "!!merge", Value: "<<"}, {Kind: yaml.AliasNode, Alias: target, Value: target.Anchor}}
+	}
+	for si, s := range steps {
+		np := len(s.Content) / 2
+		if np < 2 || t.Draw(3, "merge:step?") != 2 {
+			continue
+		}
+		hasMerge := false
+		for i := 0; i < len(s.Content); i += 2 {
+			if s.Content[i].Tag == "!!merge" || s.Content[i].Value == "<<" {
+				hasMerge = true
+			}
+		}
+		if hasMerge {
+			continue
+		}
+		// split the pairs: a non-empty proper subset moves into the template
+		moved := map[int]bool{}
+		for i := 0; i < np; i++ {
+			if t.Draw(2, "merge:move?") == 1 {
+				moved[i] = true
+			}
+		}
+		if len(moved) == 0 {
+			moved[t.Draw(np, "merge:move-one")] = true
+		}
+		if len(moved) == np {
+			delete(moved, t.Draw(np, "merge:keep-one"))
+			for k := range moved {
+				_ = k
+				break
+			}
+		}
+		var explicit, tplPairs []*yaml.Node
+		for i := 0; i < np; i++ {
+			if moved[i] {
+				tplPairs = append(tplPairs, s.Content[2*i], s.Content[2*i+1])
+			} else {
+				explicit = append(explicit, s.Content[2*i], s.Content[2*i+1])
+			}
+		}
+		if len(tplPairs) == 0 || len(explicit) == 0 {
+			continue
+		}
+		A := &yaml.Node{Kind: yaml.MappingNode, Tag: "!!map", Anchor: fmt.Sprintf("t%d", si)}
+		A.Content = append(A.Content, tplPairs...)
+		// the template may also carry a key the step sets explicitly (the explicit one wins)
+		if t.Draw(2, "merge:overridden-key") == 1 {
+			k := explicit[2*t.Draw(len(explicit)/2, "merge:which-explicit")]
+			A.Content = append(A.Content, &yaml.Node{Kind: yaml.ScalarNode, Tag: k.Tag, Value: k.Value, Style: k.Style}, junk())
+		}
+		target := A
+		tpls.Content = append(tpls.Content, A)
+		if t.Draw(2, "merge:two-level") == 1 {
+			// B merges A and overrides one of A's keys: A holds junk for it, B the real value
+			i := 2 * t.Draw(len(tplPairs)/2, "merge:override-which")
+			realKey, realVal := A.Content[i], A.Content[i+1]
+			A.Content[i+1] = junk()
+			B := &yaml.Node{Kind: yaml.MappingNode, Tag: "!!map", Anchor: fmt.Sprintf("u%d", si)}
+			over := []*yaml.Node{{Kind: yaml.ScalarNode, Tag: realKey.Tag, Value: realKey.Value, Style: realKey.Style}, realVal}
+			if t.Draw(2, "merge:override-after-merge") == 1 {
+				B.Content = append(append(B.Content, merge(A)...), over...)
+			} else {
+				B.Content = append(append(B.Content, over...), merge(A)...)
+			}
+			tpls.Content = append(tpls.Content, B)
+			target = B
+		}
+		pos := 2 * t.Draw(len(explicit)/2+1, "merge:position")
+		var content []*yaml.Node
+		content = append(content, explicit[:pos]...)
+		content = append(content, merge(target)...)
+		content = append(content, explicit[pos:]...)
+		s.Content = content
+		n++
+	}
+	if n == 0 {
+		return 0
+	}
+	root.Content = append([]*yaml.Node{{Kind: yaml.ScalarNode, Tag: "!!str", Value: "x-templates"}, tpls}, root.Content...)
+	return n
+}
+
+// resolveMergedYAML decodes a YAML node generically WITH merge resolution, by the merge rules: explicit keys
+// beat merged keys, earlier merge sources beat later ones, merges nest. (Own implementation; used only to
+// self-check the Author's merge renderings.)
+func resolveMergedYAML(y *yaml.Node, depth int) (*Node, error) {
+	if depth > 100 {
+		return nil, fmt.Errorf("too deep")
+	}
+	switch y.Kind {
+	case yaml.AliasNode:
+		return resolveMergedYAML(y.Alias, depth+1)
+	case yaml.DocumentNode:
+		if len(y.Content) != 1 {
+			return Null(), nil
+		}
+		return resolveMergedYAML(y.Content[0], depth+1)
+	case yaml.SequenceNode:
+		n := &Node{Kind: KSeq, Seq: []*Node{}}
+		for _, c := range y.Content {
+			x, err := resolveMergedYAML(c, depth+1)
+			if err != nil {
+				return nil, err
+			}
+			n.Seq = append(n.Seq, x)
+		}
+		return n, nil
+	case yaml.MappingNode:
+		n := Map()
+		explicit := map[string]bool{}
+		for i := 0; i+1 < len(y.Content); i += 2 {
+			if y.Content[i].Tag != "!!merge" {
+				explicit[y.Content[i].Value] = true
+			}
+		}
+		var addMerged func(src *yaml.Node) error
+		addMerged = func(src *yaml.Node) error {
+			switch src.Kind {
+			case yaml.AliasNode:
+				return addMerged(src.Alias)
+			case yaml.SequenceNode:
+				for _, e := range src.Content {
+					if err := addMerged(e); err != nil {
+						return err
+					}
+				}
+				return nil
+			case yaml.MappingNode:
+				r, err := resolveMergedYAML(src, depth+1)
+				if err != nil {
+					return err
+				}
+				for i, k := range r.Keys {
+					if !explicit[k] && !n.Has(k) {
+						n.Keys = append(n.Keys, k)
+						n.Vals = append(n.Vals, r.Vals[i])
+					}
+				}
+				return nil
+			}
+			return fmt.Errorf("merge source is not a mapping")
+		}
+		for i := 0; i+1 < len(y.Content); i += 2 {
+			k, v := y.Content[i], y.Content[i+1]
+			if k.Tag == "!!merge" {
+				if err := addMerged(v); err != nil {
+					return nil, err
+				}
+				continue
+			}
+			x, err := resolveMergedYAML(v, depth+1)
+			if err != nil {
+				return nil, err
+			}
+			n.Set(k.Value, x)
+		}
+		return n, nil
+	default:
+		return fromYAMLNode(y, depth)
+	}
+}
+
+// unorderedCopy marks every mapping as unordered (for the merge self-check).
+func unorderedCopy(n *Node) *Node {
+	c := n.Clone()
+	c.Walk("", func(_ string, x *Node) {
+		if x.Kind == KMap {
+			x.Unordered = true
+		}
+	})
+	return c
+}
+
+// ToYAMLWithMerges renders like ToYAML and then factors parts of step mappings out into merged templates.
+// ok=false if no merge was introduced or the self-check (own merge resolution of the output == the intended
+// document, mappings compared as sets, plus the x-templates key) fails.
+func (n *Node) ToYAMLWithMerges(st *YAMLStyle) ([]byte, int, bool) {
+	if n.Kind != KMap || st == nil || st.T == nil {
+		return nil, 0, false
+	}
+	y := n.ToYAMLNode(st)
+	merges := AddMerges(st.T, y)
+	if merges == 0 {
+		return nil, 0, false
+	}
+	var buf bytes.Buffer
+	enc := yaml.NewEncoder(&buf)
+	enc.SetIndent(2)
+	if err := func() (err error) {
+		defer func() {
+			if r := recover(); r != nil {
+				err = fmt.Errorf("panic: %v", r)
+			}
+		}()
+		return enc.Encode(y)
+	}(); err != nil {
+		return nil, 0, false
+	}
+	enc.Close()
+	var doc yaml.Node
+	if err := yaml.Unmarshal(buf.Bytes(), &doc); err != nil {
+		return nil, 0, false
+	}
+	back, err := resolveMergedYAML(&doc, 0)
+	if err != nil || back.Kind != KMap {
+		return nil, 0, false
+	}
+	back.Del("x-templates")
+	if !Same(unorderedCopy(back), unorderedCopy(n)) {
+		return nil, 0, false
+	}
+	return buf.Bytes(), merges, true
+}
